@@ -287,7 +287,7 @@ pub fn run(ctx: &mut Ctx) {
                 }
             });
             let core = make_core_t(false, Some((origin, "/rp")), allow_private, Some(300));
-            let mut raw = b"GET /rp/socket?x=1 HTTP/1.1\r\nHost: localhost\r\nUpgrade: websocket\r\nConnection: Upgrade\r\nProxy-Authorization: Basic bogus\r\nX-Custom: v\r\n\r\n".to_vec();
+            let mut raw = b"GET /rp/socket?x=1 HTTP/1.1\r\nHost: localhost\r\nUpgrade: websocket\r\nConnection: Upgrade\r\nProxy-Authorization: Basic bogus\r\nX-Original-Protocol: HTTP3\r\nX-Custom: v\r\n\r\n".to_vec();
             raw.extend_from_slice(b"CLIENT-BYTES");
             if own_host {
                 // the reverse-proxy host's own connection handler (`reverse_proxy::listen` over the HTTP/1.1 codec)
@@ -322,6 +322,8 @@ pub fn run(ctx: &mut Ctx) {
                     && body_s.contains("LATE-ORIGIN-BYTES")
                     && origin_saw.starts_with("GET /rp/socket?x=1 HTTP/1.1\r\n")
                     && origin_saw.to_lowercase().contains("x-original-protocol: http1\r\n")
+                    // (the client sent one of its own, naming another protocol: the origin must see the endpoint's, alone)
+                    && origin_saw.to_lowercase().matches("x-original-protocol:").count() == 1
                     && origin_saw.to_lowercase().contains("x-custom: v\r\n")
                     && origin_saw.contains("CLIENT-BYTES");
                 if !ok {
@@ -494,13 +496,19 @@ pub fn run_h3(ctx: &mut Ctx) {
         for (sni, path) in [("main.verif.test", "/rp/socket?x=1"), ("rproxy.verif.test", "/any/path?y=2")] {
             ctx.stat("h3_reverse_proxy_requests");
             seen.lock().unwrap().clear();
-            let hs = vec![("x-custom".to_string(), b"v".to_vec()), ("proxy-authorization".to_string(), b"Basic bogus".to_vec())];
+            let hs = vec![
+                ("x-custom".to_string(), b"v".to_vec()),
+                ("proxy-authorization".to_string(), b"Basic bogus".to_vec()),
+                // a header of the endpoint's own, forged by the client
+                ("x-original-protocol".to_string(), b"HTTP1".to_vec()),
+            ];
             let st = exchange(sni, "GET", path, &hs, &[], Duration::from_secs(3));
             std::thread::sleep(Duration::from_millis(350));
             let saw: Vec<String> = seen.lock().unwrap().iter().map(|b| String::from_utf8_lossy(b).to_string()).collect();
             let origin_ok = saw.len() == 1
                 && saw[0].starts_with(&format!("GET {} HTTP/1.1\r\n", path))
                 && saw[0].to_lowercase().contains("x-original-protocol: http3\r\n")
+                && saw[0].to_lowercase().matches("x-original-protocol:").count() == 1
                 && saw[0].to_lowercase().contains("x-custom: v\r\n");
             let client_ok = st.as_ref().map(|s| s.status == Some(200) && s.body == b"ORIGIN-BYTES" && s.headers.iter().any(|(n, v)| n == "x-origin" && v == "yes")).unwrap_or(false);
             if !origin_ok || !client_ok {
